@@ -198,6 +198,38 @@ def r_register_membership(ctx: Ctx, rule: str):
             rep.ob(rule, "register add and running-registry insert form one atomic segment", not bad, node=a)
 
 
+def _first_absent(ctx: Ctx, f: FuncInfo, v: ast.AST):
+    """`next(x for x in <candidates> if x not in self._task_groups)` -> (template of a candidate, filtered by absence from the
+    group table, the candidates enumerate a counter); None when v is not of that form"""
+    V = ctx.vals
+    v = V.resolve(f, v)
+    if not (isinstance(v, ast.Call) and isinstance(v.func, ast.Name) and v.func.id == "next" and len(v.args) == 1 and not v.keywords):
+        return None
+    gen = V.resolve(f, v.args[0])
+    if not (isinstance(gen, ast.GeneratorExp) and len(gen.generators) == 1 and isinstance(gen.generators[0].target, ast.Name)):
+        return None
+    g0 = gen.generators[0]
+    tv = g0.target.id
+    if not (isinstance(gen.elt, ast.Name) and gen.elt.id == tv):
+        return None
+    absent = any(isinstance(c, ast.Compare) and len(c.ops) == 1 and isinstance(c.ops[0], ast.NotIn) and isinstance(c.left, ast.Name) and c.left.id == tv
+                 and ctx.eff.paths(f).of(c.comparators[0]) == GROUPS for c in g0.ifs)
+
+    def elem(it: ast.AST, depth: int = 0):
+        it = V.resolve(f, it)
+        if depth > 4 or not (isinstance(it, (ast.GeneratorExp, ast.ListComp)) and len(it.generators) == 1 and isinstance(it.generators[0].target, ast.Name)) or it.generators[0].ifs:
+            return None, False
+        gi = it.generators[0]
+        if isinstance(it.elt, ast.Name) and it.elt.id == gi.target.id:
+            return elem(gi.iter, depth + 1)
+        src = V.resolve(f, gi.iter)
+        counts = isinstance(src, ast.Call) and ctx.an.scope(f).callee(src).name.rpartition(".")[2] == "count" and len(src.args) <= 1
+        return template(ctx, f, it.elt), counts
+
+    t, counts = elem(g0.iter)
+    return t, absent, counts
+
+
 def r_group_name_generator(ctx: Ctx, rule: str):
     rep = ctx.rep
     rep.rule(rule, "_generate_group_name returns a name only after `name not in self._task_groups`; its template, evaluated abstractly, is "
@@ -208,12 +240,18 @@ def r_group_name_generator(ctx: Ctx, rule: str):
         rets = ctx.distinct_sites(ctx.nodes(f, lambda n: n.op == "return" and n.ast.value is not None))
         rep.floor(rule, "returns of _generate_group_name", len(rets), 1)
         for r in rets:
-            t = template(ctx, f, r.ast.value)
+            fn_form = _first_absent(ctx, f, r.ast.value)
+            t = fn_form[0] if fn_form is not None else template(ctx, f, r.ast.value)
             ok = None
             if t is not None:
                 ok = (len(t) == 5 and t[0] == ("expr", params[0]) and t[1] == ("lit", "-") and t[2] == ("expr", f"{params[1]}.__name__")
                       and t[3] == ("lit", "-group-") and t[4][0] == "expr")
             rep.ob(rule, "generated names follow '<prefix>-<func name>-group-<i>'", ok, node=r, detail=f"template {show(t)}")
+            if fn_form is not None:
+                # `next(name for name in <candidates> if name not in self._task_groups)`: what next() hands back has passed the filter
+                rep.ob(rule, "a generated name is returned only after it was found absent from the group table", fn_form[1], node=r)
+                rep.ob(rule, "each attempt uses a new index", fn_form[2], node=r)
+                continue
             v = r.ast.value
 
             def same_name(left: ast.AST) -> bool:
@@ -311,7 +349,30 @@ def r_get_group_ids(ctx: Ctx, rule: str):
         for node, nm in inplace:
             rep.ob(rule, "in-place set operations work on a set created by get_group_ids itself, never on a register of the pool", fresh(nm), func=f, construct=node,
                    detail="" if fresh(nm) else f"`{nm}` may be a live TaskGroupRegister taken from the group table: merging into it files the ids of one group under another")
-        rep.floor(rule, "union step in get_group_ids", len(ups) + len([1 for n_, _ in inplace if isinstance(n_, ast.AugAssign)]), 1)
+        # the same union written as one comprehension: {task_id for name in group_names for task_id in <register of name>}
+        comps = []
+        for r in ctx.distinct_sites(ctx.nodes(f, lambda n: n.op == "return" and n.ast.value is not None)):
+            v = ctx.vals.resolve(f, r.ast.value)
+            if isinstance(v, ast.Call) and isinstance(v.func, ast.Name) and v.func.id in ("set", "frozenset") and len(v.args) == 1:
+                v = ctx.vals.resolve(f, v.args[0])
+            if isinstance(v, (ast.SetComp, ast.GeneratorExp, ast.ListComp)) and len(v.generators) == 2:
+                comps.append((r, v))
+        for r, v in comps:
+            g1, g2 = v.generators
+            outer = isinstance(g1.iter, ast.Name) and g1.iter.id == va and isinstance(g1.target, ast.Name) and not g1.ifs
+            inner_ok = False
+            if outer and isinstance(g2.target, ast.Name) and not g2.ifs and isinstance(v.elt, ast.Name) and v.elt.id == g2.target.id:
+                for fr, env, leaf in ctx.vals.leaves(f, None, g2.iter):
+                    if isinstance(leaf, ast.Call) and isinstance(leaf.func, ast.Name) and leaf.func.id in ("set", "list", "tuple", "frozenset", "iter", "sorted") and len(leaf.args) == 1:
+                        leaf = leaf.args[0]
+                    key = ctx.vals.trace(fr, env, leaf.slice) if isinstance(leaf, ast.Subscript) else None
+                    inner_ok = isinstance(leaf, ast.Subscript) and ctx.eff.rebase(ctx.eff.paths(fr).of(leaf.value) or "", fr, env) == GROUPS \
+                        and key is not None and key[0] is f and isinstance(key[2], ast.Name) and key[2].id == g1.target.id
+                    if not inner_ok:
+                        break
+            rep.ob(rule, "the ids of every named group's register are added to the result", outer and inner_ok, node=r)
+            rep.ob(rule, "the result is a fresh set (callers cannot alias a live register)", isinstance(v, ast.SetComp) or isinstance(ctx.vals.resolve(f, r.ast.value), ast.Call), node=r)
+        rep.floor(rule, "union step in get_group_ids", len(ups) + len([1 for n_, _ in inplace if isinstance(n_, ast.AugAssign)]) + len(comps), 1)
         for u in ups:
             a = ctx.vals.resolve(f, u.ast.args[0]) if u.ast.args else None
             ok = isinstance(a, ast.Subscript) and ctx.eff.paths(f).of(a.value) == GROUPS and isinstance(a.slice, ast.Name)
